@@ -73,7 +73,7 @@ class Engine:
         self.fresh_n = 0
         self.errtok_n = 0
         self.time_mode = self.cfg.get("time_mode", "ns64")
-        self.default_unwind = self.cfg.get("default_unwind", 12)
+        self.default_unwind = self.cfg.get("default_unwind", 70)
         self.unwind = self.cfg.get("unwind", {})   # "fn#block" -> bound
         self.copy_bound = self.cfg.get("copy_bound", 64)
         self.ghost = {}           # free-form ghost state for stubs
@@ -85,6 +85,7 @@ class Engine:
         self.mutexes = {}
         self.inits_done = set()
         self.narrows = 0
+        self.refinements = []     # exact definitions of summarised functions (second-stage queries)
         from . import stubs
         stubs.install(self)
 
@@ -133,7 +134,7 @@ class Engine:
                 self.stats.setdefault("folded_asserts", []).append(oid)
             return
         g = self.guard
-        if is_false(g):
+        if is_false(g) and kind != "reach":
             return
         if self.panic_scopes and kind != "assert" and kind != "reach":
             # inside a Panics(...) scope: implicit/explicit panics are captured, not obligations
@@ -400,13 +401,25 @@ class Engine:
             return False
         if is_true(g) or not self.prune:
             return True
-        s = z3.Solver()
-        s.set("timeout", self.cfg.get("prune_timeout_ms", 1500))
-        for a in self.assumptions:
-            s.add(a)
-        s.add(g)
-        r = s.check()
+        ps = self.prune_solver
+        if ps is None:
+            ps = self.prune_solver = z3.Solver()
+            ps.set("timeout", self.cfg.get("prune_timeout_ms", 400))
+            self.prune_n = 0
+        while self.prune_n < len(self.assumptions):
+            ps.add(self.assumptions[self.prune_n])
+            self.prune_n += 1
+        ps.push()
+        ps.add(g)
+        t0 = _time.time()
+        r = ps.check()
+        ps.pop()
         self.stats["prune_checks"] = self.stats.get("prune_checks", 0) + 1
+        self.stats["prune_s"] = self.stats.get("prune_s", 0.0) + _time.time() - t0
+        if r == z3.unknown:
+            self.stats["prune_unknown"] = self.stats.get("prune_unknown", 0) + 1
+        if self.trace:
+            print("    prune %s -> %s %.2fs in %s" % (len(self.assumptions), r, _time.time() - t0, self.callstack[-1] if self.callstack else ""), flush=True)
         return r != z3.unsat
 
     def call_function(self, name, args, bindings=(), instr=None):
@@ -500,18 +513,25 @@ class Engine:
         bound = self.unwind_bound(fn, h)
         live = fn.liveout.get(h, ())
         hist = {r: [] for r in live}
-        it = 0
+        it = 0        # iterations that count towards the unwinding bound (entered under a new guard)
+        total = 0
+        prevG = None
         while True:
             edges = frame.in_edges.get(h, [])
             G = Or(*[e[0] for e in edges])
             if is_false(G):
                 frame.in_edges.pop(h, None)
                 break
-            if it >= 1 and not is_true(G):
+            if prevG is not None and G.eq(prevG) and total < self.cfg.get("max_concrete_iters", 5000):
+                # the previous iteration did not branch on anything symbolic: concrete progress, not counted
+                it -= 1
+            elif it >= 1 and not is_true(G):
                 Gs = z3.simplify(G)
-                if is_false(Gs) or (it >= self.cfg.get("prune_from_iter", 1) and not self.feasible(Gs)):
+                if is_false(Gs) or (it >= self.cfg.get("prune_from_iter", 1) and fn.name not in self.cfg.get("prune_skip", ()) and not self.feasible(Gs)):
                     frame.in_edges.pop(h, None)
                     break
+            prevG = G
+            total += 1
             if it == bound:
                 frame.in_edges.pop(h, None)
                 saved = self.guard
@@ -525,7 +545,6 @@ class Engine:
             for r in live:
                 if r in frame.env and r in frame.defguard:
                     hist[r].append((frame.defguard[r], frame.env[r]))
-            # definitions of this iteration must not leak as "defined" into the next one
             it += 1
         for r in live:
             hs = hist[r]
@@ -538,7 +557,7 @@ class Engine:
                 dg = Or(dg, g)
             frame.env[r] = val
             frame.defguard[r] = dg
-        self.stats["max_iters"] = max(self.stats.get("max_iters", 0), it)
+        self.stats["max_iters"] = max(self.stats.get("max_iters", 0), total)
 
     def block_pos(self, fn, b):
         for ins in fn.blocks[b]["instrs"]:
